@@ -420,7 +420,6 @@ func (R *Repository) updateCrlEntry(entry *Entry, newChains *core.CertificateCha
 	err = R.updateEntry(entry, err, store)
 	verifhook.Hit("repo.update.after_swap")
 	if err != nil {
-		R.deleteEntrySync(identifier)
 		return err
 	}
 	R.logger.Info("finished updating crl " + entry.CRLLoader.GetDescription())
@@ -460,12 +459,9 @@ func (R *Repository) updateEntry(entry *Entry, err error, store crlstore.CRLStor
 	entry.entryLock.Lock()
 	defer entry.entryLock.Unlock()
 	verifhook.Hit("repo.swap.locked")
+	//if the update fails the store keeps (or restores) its previous content, so the previous crl stays in force.
+	//A store which could not recover reports errors on every read, the revocation status is then unknown.
 	err = entry.CRLStore.Update(store)
-	if err != nil {
-		entry.CRLStore.Close()
-		//mark as empty in case someone already acquired the entry and waits for a lock
-		entry.CRLStore = nil
-	}
 	return err
 }
 
